@@ -10,6 +10,7 @@ untouched values, purity of the patch and of the searched lists are compared
 after every step. One client, no clock, no I/O: the only 'faults' are
 operations the statement says must be skipped (items lacking the key).
 """
+import json
 import os
 import sys
 
@@ -141,20 +142,27 @@ class C18(core.Check):
         self.CI = CaseInsensitiveOrderedDict
 
     # ---------------- spec <-> objects. spec: scalar | ["l", [...]] | ["d", cls, [[k, spec]...]]
-    def build(self, spec, real):
+    def build(self, spec, real, share=None):
+        """share: a dict used to intern equal dict specs - a patch written with one constant used at several places
+        (DELETE = {"__delete__": True}; defaults = {...}; {"classes": [defaults] * 3}) holds ONE object there"""
         if isinstance(spec, list):
             if spec[0] == "l":
-                return [self.build(v, real) for v in spec[1]]
+                return [self.build(v, real, share) for v in spec[1]]
             if spec[0] == "t":
-                return tuple(self.build(v, real) for v in spec[1])
+                return tuple(self.build(v, real, share) for v in spec[1])
             if spec[0] == "d":
+                key = json.dumps(spec, sort_keys=False, default=str) if share is not None else None
+                if key is not None and key in share:
+                    return share[key]
                 if spec[1] == "ci":
                     d = self.CI(self.CI) if real else FoldDict()
                 else:
                     d = {}
                 for k, v in spec[2]:
                     kk = k.lower() if (spec[1] == "ci" and not real) else k
-                    d[kk] = self.build(v, real)
+                    d[kk] = self.build(v, real, share)
+                if key is not None:
+                    share[key] = d
                 return d
             raise core.HarnessError(f"bad spec {spec!r}")
         if isinstance(spec, str) and real and len(spec) > 1:
@@ -192,7 +200,11 @@ class C18(core.Check):
                     items.append([k, self.gen_doc(r, cls, depth + 2)])
             for k in LIST_KEYS:
                 if r.random() < (0.5 if depth == 0 else 0.3):
-                    items.append([k, ["l", [self.gen_doc(r, cls, depth + 1) for _ in range(r.randint(1, 4))]]])
+                    lst_ = [self.gen_doc(r, cls, depth + 1) for _ in range(r.randint(1, 4))]
+                    if r.random() < 0.25:
+                        # equal-content items (two identical STYLE blocks, two empty ones), not necessarily adjacent
+                        lst_.insert(r.randint(0, len(lst_)), json.loads(json.dumps(r.choice(lst_))))
+                    items.append([k, ["l", lst_]])
         if items and r.random() < 0.15:
             # bookkeeping dicts as a parse with include_position / include_comments leaves them: keyed like the keywords
             present = [k_ for k_, v_ in items if not isinstance(v_, list)]
@@ -285,6 +297,7 @@ class C18(core.Check):
         model = self.build(doc, real=False)
         ops = []
         p_update = k.choice([0.2, 0.5, 0.8])
+        share = k.random() < 0.2
         if k.random() < 0.15:
             # motif: a patch that cannot be applied yet (it deletes an object d1 does not have) is tried and fails;
             # d1 then gains that object; the very same patch object is applied again and must now work
@@ -304,6 +317,26 @@ class C18(core.Check):
             if ops and r.random() < 0.12:
                 ops.append(["update_again", r.randrange(8)])  # the very same patch object once more
                 continue
+            if share and r.random() < 0.5:
+                # one constant sub-patch used at several places of the patch
+                const = self.gen_doc(r, "plain", 3)
+                const = ["d", "plain", [it_ for it_ in const[2] if not it_[0].startswith("__")]]
+                items_ = []
+                for mk, mv in list(model.items()):
+                    if is_dict_list(mv) and r.random() < 0.7:
+                        n_ = len(mv) + r.choice([0, 0, 1, 2])
+                        items_.append([mk, ["l", [const if r.random() < 0.75 else None for _ in range(n_)]]])
+                    elif isinstance(mv, dict) and not str(mk).startswith("__") and r.random() < 0.6:
+                        items_.append([mk, const])
+                for nk in DICT_KEYS + LIST_KEYS[:1]:
+                    if fold(model, nk) not in model and r.random() < 0.4:
+                        items_.append([nk, const if nk in DICT_KEYS else ["l", [const, const]]])
+                patch = ["d", "plain", items_]
+                if const[2] and items_ and self.compatible(model, self.build(patch, real=False)):
+                    ow = r.random() < 0.7
+                    ops.append(["update", patch, ow])
+                    ref_update(model, self.build(patch, real=False), ow)
+                    continue
             if r.random() < p_update:
                 patch = self.gen_patch(r, model, cls)
                 if r.random() < 0.03:
@@ -347,7 +380,10 @@ class C18(core.Check):
                     ops.append(["findall", path, qkey, v])
                 else:
                     ops.append(["findunique", path, qkey])
-        return {"prop": "C18", "seed": seed, "doc": doc, "ops": ops}
+        case = {"prop": "C18", "seed": seed, "doc": doc, "ops": ops}
+        if share:
+            case["share_patches"] = True
+        return case
 
     # ---------------- preconditions (what the statement speaks about)
     def compatible(self, model, patch):
@@ -439,7 +475,7 @@ class C18(core.Check):
                 name = "update"
             if name == "update":
                 patch_m = self.build(op[1], real=False)
-                patch_r = op[3] if len(op) > 3 else self.build(op[1], real=True)
+                patch_r = op[3] if len(op) > 3 else self.build(op[1], real=True, share={} if case.get("share_patches") else None)
                 if not self.compatible(model, patch_m):
                     bump("skipped.incompatible_patch")
                     if True:
